@@ -136,7 +136,7 @@ def eval_stage(run, pid, modes, explore=0, explore_mode="", relevant=None):
         cases, n = run.generate(module, cfg, mode=mode, size=size, idbase=base)
         base += n
         obs = run.replay("eval", cases=cases, name="eval_%s_%s" % (mode, size))
-        verdicts = run.validate("Trace_Eval", obs)
+        verdicts = run.validate("Trace_Eval", obs, shard=3000, parallel=12, heap="3g")
         run.triage("eval", "Trace_Eval", obs, verdicts, rel, key=eval_key, nontrivial=eval_nontrivial)
     if explore:
         obs = run.replay("eval", explore=explore, mode=explore_mode, name="eval_explore", idbase=base)
@@ -325,7 +325,7 @@ def c10(tier, seed):
             for line in f:
                 o.write('{"style":%d,%s' % (style, line.strip()[1:]) + "\n")
         obs = run.replay("eval", cases=styled, name="c10_eval_%d" % style)
-        verdicts = run.validate("Trace_Eval", obs)
+        verdicts = run.validate("Trace_Eval", obs, shard=3000, parallel=12, heap="3g")
         run.triage("eval", "Trace_Eval", obs, verdicts, rel, key=eval_key, nontrivial=eval_nontrivial)
     run.bounds = dict(sugar="all token strings of <= %d tokens over 13 token kinds + 24 longer shapes (method calls with 1..10 arguments, "
                       "sugared callees, sugar inside literals and subscripts)" % (5 if thorough else 4),
